@@ -291,16 +291,57 @@ func c06Scenarios() []*explore.Scenario {
 	return out
 }
 
-// runScenarios explores each scenario (one worker process per scenario,
-// iterative preemption bounding 0..maxP, happens-before cache) inside the
-// run's budget and reports findings.
-func runScenarios(c *core.Ctx, scs []*explore.Scenario, maxP, dBound int) {
-	byName := map[string]*explore.Scenario{}
+// Plan is one exploration job: a scenario, its cost model and bound.
+type Plan struct {
+	Sc    *explore.Scenario
+	Delay bool // delay bounding instead of preemption bounding
+	Max   int  // bounds 0..Max are explored in turn
+	Dev   int  // deviation (fault) bound
+}
+
+// both returns, for every scenario, a preemption-bounded and a
+// delay-bounded plan.
+func both(scs []*explore.Scenario, maxP, maxD, dev int) []Plan {
+	var out []Plan
 	for _, sc := range scs {
-		byName[sc.Name] = sc
+		if maxP >= 0 {
+			out = append(out, Plan{Sc: sc, Max: maxP, Dev: dev})
+		}
+		if maxD >= 0 {
+			out = append(out, Plan{Sc: sc, Delay: true, Max: maxD, Dev: dev})
+		}
 	}
-	res := explore.RunMany(c.Prop, scs, explore.Options{PBound: maxP, DBound: dBound, Deadline: c.Deadline}, c.Workers)
-	completedAll := maxP
+	return out
+}
+
+func runScenarios(c *core.Ctx, scs []*explore.Scenario, maxP, dBound int) {
+	runPlans(c, both(scs, maxP, -1, dBound))
+}
+
+// runPlans explores each plan in its own worker process (iterative
+// bounding, happens-before cache) inside the run's budget and reports
+// findings. Long plans are started first.
+func runPlans(c *core.Ctx, plans []Plan) {
+	var scs []*explore.Scenario
+	var opts []explore.Options
+	maxP, dBound := 0, 0
+	for _, p := range plans {
+		sc := p.Sc
+		if p.Delay {
+			sc = explore.WithDelay(sc)
+		}
+		scs = append(scs, sc)
+		opts = append(opts, explore.Options{PBound: p.Max, DBound: p.Dev, Deadline: c.Deadline})
+		if p.Max > maxP {
+			maxP = p.Max
+		}
+		if p.Dev > dBound {
+			dBound = p.Dev
+		}
+	}
+	res := explore.RunMany(c.Prop, scs, opts, c.Workers)
+	incomplete := 0
+	bounds := map[string]int{}
 	for i, st := range res {
 		sc := scs[i]
 		if st.Err != "" {
@@ -323,19 +364,19 @@ func runScenarios(c *core.Ctx, scs []*explore.Scenario, maxP, dBound int) {
 			c.Violation(v.Sig+"@"+sigScenario(sc.Name), v.Msg, map[string]any{"scenario": sc.Name, "choices": v.Choices, "preemption_bound": v.PBound, "deviation_bound": v.DBound, "log": v.Log, "trace": v.Trace})
 		}
 		if i < 4 || i == len(res)-1 {
-			c.Sample(map[string]any{"scenario": sc.Name, "preemption_bound_completed": st.CompletedP, "executions": st.Execs, "executions_at_last_bound": st.LastExecs, "cut_short_by_state_cache": st.Pruned, "sample_execution": st.Sample})
+			c.Sample(map[string]any{"scenario": sc.Name, "preemption_bound_completed": st.CompletedP, "executions": st.Execs, "executions_at_last_bound": st.LastExecs, "cut_short_by_state_cache": st.Pruned, "alternatives_skipped_by_state_cache": st.Skipped, "sample_execution": st.Sample})
 		}
-		if st.CompletedP < completedAll && len(st.Viol) == 0 {
-			completedAll = st.CompletedP
+		fmt.Printf("  scenario %-28s bound_completed=%d executions=%d (last bound %d) cut_by_cache=%d skipped_by_cache=%d outcomes=%d violations=%d\n", sc.Name, st.CompletedP, st.Execs, st.LastExecs, st.Pruned, st.Skipped, len(st.Outcomes), len(st.Viol))
+		if st.CompletedP < opts[i].PBound && len(st.Viol) == 0 {
+			incomplete++
+			c.NotExhaustive(fmt.Sprintf("%s: time budget, bound %d completed (target %d)", sc.Name, st.CompletedP, opts[i].PBound))
 		}
+		bounds[sc.Name] = st.CompletedP
 	}
-	c.Set("preemption_bound_completed_all_scenarios", completedAll)
-	c.Set("preemption_bound_target", maxP)
+	c.Set("bound_completed_per_scenario", bounds)
+	c.Set("cost_models", "name~d = delay bounding (k-th enabled task in round-robin order costs k); otherwise preemption bounding (leaving an enabled task costs 1); ready select cases, rendezvous partners and environment answers are free in both")
 	c.Set("deviation_bound", dBound)
 	c.Set("scenarios", len(scs))
-	if completedAll < maxP {
-		c.NotExhaustive(fmt.Sprintf("time budget: preemption bound %d completed for every scenario (target %d)", completedAll, maxP))
-	}
 }
 
 // sigScenario keeps violation signatures stable but scenario-specific
@@ -346,9 +387,9 @@ func c06(c *core.Ctx) {
 	c.Budget(90*time.Second, 12*time.Minute)
 	c.SetRule("scenarios = every assignment of tags {1,2} to 2 and 3 pipelined requests (repeat of an outstanding tag, and reuse after the reply was read), each explored over all interleavings of the real ServeConn goroutines, handler completions and the scripted client up to the preemption bound; outcome = reply order + duplicate-tag attributions")
 	c.Assume("scheduling points at channel, select, mutex, once, sync.Map, context-cancel and conn operations; sequentially consistent interleavings only", "client is scripted with an independent codec; handler results are a function of the request identity")
-	maxP := 1
-	if !c.Quick() {
-		maxP = 3
+	if c.Quick() {
+		runPlans(c, both(c06Scenarios(), 1, 3, 0))
+	} else {
+		runPlans(c, both(c06Scenarios(), 3, 6, 0))
 	}
-	runScenarios(c, c06Scenarios(), maxP, 0)
 }
